@@ -26,8 +26,9 @@ Streams (the class is re-derived by the model driver from the case text):
 import os
 
 A63 = "a" * 63
-# nested ares_set_servers*() from callbacks (only safe with fixes/C01-setservers-from-callback.patch)
-NEST_SS = os.environ.get("C01_NEST_SS", "") == "1"
+# nested ares_set_servers*() from callbacks (safe since c731cbd, fixes/C01-setservers-from-callback.patch);
+# C01_NEST_SS=0 switches them off (trees without that fix)
+NEST_SS = os.environ.get("C01_NEST_SS", "1") != "0"
 
 KINDS = ["send", "query", "search", "gai", "ghbn", "ghba", "gni", "oquery", "osearch", "sendraw"]
 
